@@ -341,6 +341,18 @@ func runProp(p *Prog, pd *propDef, tier string, seed int64, verif string, known 
 			"wall_s":     time.Since(t0).Seconds() + loadS,
 			"violations": violated,
 		}
+		if tier == "thorough" {
+			par := 8
+			if v, err := strconv.Atoi(os.Getenv("VERIF_PAR")); err == nil && v > 0 {
+				par = v
+			}
+			t1 := time.Now()
+			sv := selfValidation(p.Root, verif, pd.ID, par)
+			sv["wall_s"] = time.Since(t1).Seconds()
+			ev["coverage"].(map[string]interface{})["self_validation"] = sv
+			ev["wall_s"] = time.Since(t0).Seconds() + loadS
+			fmt.Printf("%s thorough: self-validation on %v overlay variants: %v\n", pd.ID, sv["variants"], sv["tally"])
+		}
 		b, _ := json.MarshalIndent(ev, "", " ")
 		os.MkdirAll(filepath.Join(verif, "evidence"), 0o755)
 		if err := os.WriteFile(filepath.Join(verif, "evidence", pd.ID+".json"), b, 0o644); err != nil {
